@@ -45,6 +45,8 @@ func (m *ControlFile) Close() error {
 			if err := file.Close(m.fp); err != nil {
 				return err
 			}
+			// A descriptor is closed once: when the removal below fails, the release can be tried again.
+			m.fp = nil
 		}
 
 		if Exists(m.path) {
@@ -62,6 +64,8 @@ func (m *ControlFile) CloseWithErrors() []error {
 		if m.fp != nil {
 			if err := file.Close(m.fp); err != nil {
 				errs = append(errs, err)
+			} else {
+				m.fp = nil
 			}
 		}
 
